@@ -516,16 +516,6 @@ theorem c01_http_200_partial (evs : List Ev) (hq : Along QuietFail .asIs State.i
 
 /-! ## the witnesses -/
 
-def exInfo : Info := ⟨3600, 1000000⟩
-/-- the middle of round 10 -/
-def exNow : Int := 1000000 + 9 * 3600 + 1800
-
-/-- request 0 (round 5, served by `Get`) starts the watcher; the stream delivers round 10; request 1 for round 11 parks -/
-def exParked : List Ev :=
-  [.arrive 0 5 exNow (some exInfo), .eval1 0, .futureChk 0 exNow, .getAns 0 (some ⟨5, 55⟩), .close 0,
-   .wDeliver ⟨10, 1010⟩, .wLock, .wUnlock,
-   .arrive 1 11 exNow none, .eval1 1, .eval2 1]
-
 /-- … the stream skips round 11 and delivers round 12; the waiter takes what it was sent and returns -/
 def emptyWitness : List Ev := exParked ++ [.wDeliver ⟨12, 1212⟩, .wLock, .wSend, .wUnlock, .recv 1, .close 1]
 
@@ -554,5 +544,52 @@ theorem c01_http_wrong_round_counterexample :
   refine ⟨by decide, by decide, ?_⟩
   simp [wrongRoundWitness, exParked, Along, GetExact]
   decide
+
+/-! ## non-vacuity, and the patched code on the same two scenarios -/
+
+/-- consecutive delivery: the parked request for round 11 gets the beacon of round 11 (both variants) -/
+def exNormal : List Ev := exParked ++ [.wDeliver ⟨11, 1111⟩, .wLock, .wSend, .wUnlock, .recv 1, .close 1]
+
+example : ((run .fixed (exParked ++ [.wDeliver ⟨11, 1111⟩, .wLock, .wSend])).chans 1).buf = some (.json ⟨11, 1111⟩) := by decide
+example : ((run .asIs (exParked ++ [.wDeliver ⟨11, 1111⟩, .wLock, .wSend])).chans 1).buf = some (.json ⟨11, 1111⟩) ∧
+    Along QuietFail .asIs State.init (exParked ++ [.wDeliver ⟨11, 1111⟩, .wLock, .wSend]) := by
+  refine ⟨by decide, ?_⟩
+  simp [exParked, Along, QuietFail]; decide
+example : (run .fixed (exParked ++ [.wDeliver ⟨11, 1111⟩, .wLock])).wlocal = [1] ∧
+    (run .fixed (exParked ++ [.wDeliver ⟨11, 1111⟩, .wLock])).wb = .json ⟨11, 1111⟩ := by decide
+example : ((run .fixed exNormal).reqs 1).pc = .done ⟨200, some ⟨11, 1111⟩⟩ ∧ ((run .fixed exNormal).reqs 1).fromGet = false ∧
+    Along GetExact .fixed State.init exNormal := by
+  refine ⟨by decide, by decide, ?_⟩
+  simp [exNormal, exParked, Along, GetExact]; decide
+example : ((run .asIs exNormal).reqs 1).pc = .done ⟨200, some ⟨11, 1111⟩⟩ := by decide
+
+/-- the skipped-round scenario on the patched code: the waiter is released with the empty marker, falls through to the
+future test (one period later round 11 is due) and fetches round 11 itself -/
+def emptyWitnessFixed : List Ev :=
+  exParked ++ [.wDeliver ⟨12, 1212⟩, .wLock, .wSend, .wUnlock, .recv 1, .futureChk 1 (exNow + 3600), .getAns 1 (some ⟨11, 1111⟩), .close 1]
+
+example : ((run .fixed emptyWitnessFixed).reqs 1).pc = .done ⟨200, some ⟨11, 1111⟩⟩ ∧
+    Along GetExact .fixed State.init emptyWitnessFixed := by
+  refine ⟨by decide, ?_⟩
+  simp [emptyWitnessFixed, exParked, Along, GetExact]; decide
+/-- the same events as the as-is witness: no 200 at all (the request is still in `getRand`) -/
+example : ((run .fixed emptyWitness).reqs 1).pc = .future := by decide
+
+/-- the stream-failure scenario on the patched code: the failure releases the waiter (nil), round 11 is not due yet: 404 -/
+def wrongRoundWitnessFixed : List Ev :=
+  exParked ++ [.wClosed, .wLock, .wSend, .wUnlock, .recv 1, .futureChk 1 exNow, .close 1,
+               .wBackoffDone, .wResub, .wDeliver ⟨12, 1212⟩, .wLock, .wUnlock]
+
+example : ((run .fixed wrongRoundWitnessFixed).reqs 1).pc = .done ⟨404, none⟩ ∧ (run .fixed wrongRoundWitnessFixed).latest = 12 ∧
+    (run .fixed wrongRoundWitnessFixed).holder = .free := by decide
+
+/-! ## (d) LatestRand -/
+
+/-- `/public/latest` answers 200 only with exactly what the client returned for `Get(ctx, 0)` -/
+theorem c01_http_latest (g : Option Beacon) (i : Option Info) (body : Option Beacon)
+    (h : latestRandAnswer g i = ⟨200, body⟩) : body = g ∧ g ≠ none ∧ i ≠ none := by
+  cases g <;> cases i <;> simp_all [latestRandAnswer] <;> (subst h; simp)
+
+example : latestRandAnswer (some ⟨10, 1010⟩) (some exInfo) = ⟨200, some ⟨10, 1010⟩⟩ := by decide
 
 end Drand.Http
